@@ -204,6 +204,20 @@ add('C20', 'TLA+ spec Autodiff (integer tensor algebra with textbook definitions
     'scalar / vector / composite bases. Partial: transcendental integrands have no exact oracle and are not decided.',
     'DESIGN.md section 5 C20')
 
+add('C09', 'TLA+ spec ShapeFunctions: the Lagrange differentiation operator as exact rational stencil weights (closed form, '
+    'model checked: reproduces first/second derivatives of every monomial on all admissible windows), transformation-rule '
+    'table per element family (H1 / H(div) / H(curl) / matrix Piola rules, model checked as identities over integer '
+    'matrices), duality and partition-of-unity classes; TLC trace validation of lbasis / gbasis fields of EVERY exported '
+    'element class and wrapper, every local index, in fixed point',
+    'Revised design (DESIGN section 6): the claim is decomposed into ReferenceDerivative (delivered derivative = stencil '
+    'applied to delivered values on the reference cell; exact for polynomials), MappingRule (gbasis = family '
+    'transformation of lbasis with the mapping Jacobians, also on non-affine and curved cells, shared and per-cell points), '
+    'MappedDerivative / GlobalDerivative on affine cells, WrapperInherits, Duality (nodal, facet flux, edge circulation, '
+    'named global DOFs, the element gdof functionals) and PartitionOfUnity. Exhaustive over (class, local index) = 773 '
+    'pairs; sampled points. Not covered: direct differentiation on non-affine cells, duality of the higher-order '
+    'H(div)/H(curl) and HHJ elements, sign conventions (C03).',
+    'DESIGN.md section 6 (C09, revised)', TRUST + ' Mode L: oracle = differentiation weights and transformation rules defined and model checked in TLA+; tolerances 2^-40 (reference), 2^-30 (global elements) x magnitude, >= 500x above observed round-off.')
+
 NOT_YET = "check not built yet (implementation in progress; see DESIGN.md section 8 for the plan)"
 NA = {'C09': "no state, transitions or discrete core: ~70 closed-form derivative formulas; TLA+/TLC cannot express "
              "real differentiation except as a numeric harness with TLC as calculator (DESIGN.md section 6)"}
